@@ -68,9 +68,6 @@ func init() { reg("C02", "derivation", checkC02) }
 func commentSkels(cs []gen.Comment) []string {
 	var out []string
 	for _, c := range cs {
-		if c.Text == "" {
-			continue // go.sh does not record an empty comment
-		}
 		out = append(out, "#"+fmt.Sprintf("%q", c.Text))
 	}
 	return out
